@@ -19,16 +19,18 @@ structure StepI (i : Option Nat) (st st' : State) : Prop where
   inv : Inv st'
   mono : st.nextId ≤ st'.nextId
   sub : ∀ j ∈ ids st', j ∈ ids st ∨ some j = i ∨ st.nextId ≤ j
+  /-- the poison flag of the goal layer is never touched by the state machine -/
+  pan : st'.panic = st.panic
 
 theorem StepI.refl {i : Option Nat} {st : State} (h : Inv st) : StepI i st st :=
-  ⟨h, Nat.le_refl _, fun _ hj => .inl hj⟩
+  ⟨h, Nat.le_refl _, fun _ hj => .inl hj, rfl⟩
 
 theorem StepI.weaken {st st' : State} {i : Option Nat} (h : StepI none st st') : StepI i st st' :=
   ⟨h.inv, h.mono, fun j hj => by
     rcases h.sub j hj with a | a | a
     · exact .inl a
     · cases a
-    · exact .inr (.inr a)⟩
+    · exact .inr (.inr a), h.pan⟩
 
 theorem StepI.trans {i : Option Nat} {st st1 st2 : State} (h1 : StepI i st st1) (h2 : StepI i st1 st2) :
     StepI i st st2 :=
@@ -36,14 +38,15 @@ theorem StepI.trans {i : Option Nat} {st st1 st2 : State} (h1 : StepI i st st1) 
     rcases h2.sub j hj with a | a | a
     · exact h1.sub j a
     · exact .inr (.inl a)
-    · exact .inr (.inr (Nat.le_trans h1.mono a))⟩
+    · exact .inr (.inr (Nat.le_trans h1.mono a)), h2.pan.trans h1.pan⟩
 
 /-- a state that differs only in substitution / domains / log -/
 def SameStore (st st' : State) : Prop :=
-  st'.store = st.store ∧ st'.nextId = st.nextId ∧ st'.withs = st.withs ∧ st'.takes = st.takes
+  st'.store = st.store ∧ st'.nextId = st.nextId ∧ st'.withs = st.withs ∧ st'.takes = st.takes ∧
+    st'.panic = st.panic
 
 theorem SameStore.inv {st st' : State} (h : SameStore st st') (hi : Inv st) : Inv st' := by
-  obtain ⟨h1, h2, h3, h4⟩ := h
+  obtain ⟨h1, h2, h3, h4, _⟩ := h
   obtain ⟨hc, hn, hl⟩ := hi
   refine ⟨?_, ?_, ?_⟩
   · simp only [Cnt] at hc ⊢; rw [h1, h3, h4]; exact hc
@@ -51,12 +54,21 @@ theorem SameStore.inv {st st' : State} (h : SameStore st st') (hi : Inv st) : In
   · intro p hp; rw [h1] at hp; rw [h2]; exact hl p hp
 
 theorem SameStore.step {i : Option Nat} {st st' : State} (h : SameStore st st') (hi : Inv st) : StepI i st st' :=
-  ⟨h.inv hi, by rw [h.2.1]; exact Nat.le_refl _, fun j hj => .inl (by simpa [ids, h.1] using hj)⟩
+  ⟨h.inv hi, by rw [h.2.1]; exact Nat.le_refl _, fun j hj => .inl (by simpa [ids, h.1] using hj), h.2.2.2.2⟩
 
 /-- the nested `run_constraints` respects the lifecycle -/
 def RcOK (rc : State → Res State) : Prop := ∀ st st', Inv st → rc st = .ok st' → StepI none st st'
 
 /-! ### the store operations -/
+
+theorem take_panic (st : State) (i : Nat) : (st.takeConstraint i).1.panic = st.panic := by
+  unfold State.takeConstraint; split <;> rfl
+
+theorem takes_panic : ∀ (l : List (Nat × Cst)) (st : State), (takes l st).panic = st.panic
+  | [], _ => rfl
+  | p :: l, st => by
+    have : takes (p :: l) st = takes l (st.takeConstraint p.1).1 := rfl
+    rw [this, takes_panic l, take_panic]
 
 theorem take_step (st : State) (i : Nat) (hi : Inv st) :
     Inv (st.takeConstraint i).1 ∧ (st.takeConstraint i).1.nextId = st.nextId ∧
@@ -93,13 +105,13 @@ theorem with_step (ord : Order) (st : State) (i : Nat) (c : Cst) (hi : Inv st) (
       have : q.1 ≠ i := fun e => hni (e ▸ List.mem_map_of_mem hq)
       simpa using this
     have hs : (st.withConstraint ord i c).store = st.store ++ [(i, c)] ∧
-        (st.withConstraint ord i c).nextId = st.nextId := by
-      cases c <;> first | (simp [Cst.isDiseq] at hd; done) | exact ⟨by simp only [State.withConstraint, hf], rfl⟩
-    refine ⟨⟨C22_with_other ord st i c hd hni hc, ?_, ?_⟩, by rw [hs.2]; exact Nat.le_refl _, ?_⟩
+        (st.withConstraint ord i c).nextId = st.nextId ∧ (st.withConstraint ord i c).panic = st.panic := by
+      cases c <;> first | (simp [Cst.isDiseq] at hd; done) | exact ⟨by simp only [State.withConstraint, hf], rfl, rfl⟩
+    refine ⟨⟨C22_with_other ord st i c hd hni hc, ?_, ?_⟩, by rw [hs.2.1]; exact Nat.le_refl _, ?_, hs.2.2⟩
     · rw [hs.1]; simp only [List.map_append, List.map_cons, List.map_nil]
       exact List.nodup_append.2 ⟨hn, by simp, fun a ha b hb => by
         simp only [List.mem_singleton] at hb; subst hb; intro e; exact hni (e ▸ ha)⟩
-    · intro p hp; rw [hs.1] at hp; rw [hs.2]
+    · intro p hp; rw [hs.1] at hp; rw [hs.2.1]
       rcases List.mem_append.1 hp with h | h
       · exact hl p h
       · simp only [List.mem_singleton] at h; subst h; exact hlt
@@ -123,7 +135,7 @@ theorem with_step (ord : Order) (st : State) (i : Nat) (c : Cst) (hi : Inv st) (
       have hni' : i ∉ (takes L st).store.map (·.1) := fun hj => by
         obtain ⟨q, hq, e⟩ := List.mem_map.1 hj
         exact hni (e ▸ List.mem_map_of_mem (hsub q hq))
-      refine ⟨⟨?_, ?_, ?_⟩, by simp only [t3]; exact Nat.le_refl _, ?_⟩
+      refine ⟨⟨?_, ?_, ?_⟩, by simp only [t3]; exact Nat.le_refl _, ?_, takes_panic L st⟩
       · simp only [Cnt, List.length_append, List.length_singleton] at hcnt ⊢; omega
       · simp only [List.map_append, List.map_cons, List.map_nil]
         exact List.nodup_append.2 ⟨hnd, by simp, fun a ha b hb => by
@@ -152,7 +164,7 @@ theorem withNew_step {i : Option Nat} (ord : Order) (st : State) (c : Cst) (hi :
     have e' : q.1 = st.nextId := e
     omega
   have s := with_step ord { st with nextId := st.nextId + 1 } st.nextId c hi' (Nat.lt_succ_self _) hni
-  refine ⟨s.inv, Nat.le_trans (Nat.le_succ _) s.mono, fun j hj => ?_⟩
+  refine ⟨s.inv, Nat.le_trans (Nat.le_succ _) s.mono, fun j hj => ?_, s.pan⟩
   rcases s.sub j hj with a | a | a
   · exact .inl a
   · simp only [Option.some.injEq] at a; exact .inr (.inr (by omega))
@@ -202,7 +214,7 @@ theorem SameStore.pre {i : Option Nat} {st st0 st' : State} (h : SameStore st st
     rcases s.sub j hj with a | a | a
     · exact .inl (by simpa [ids, h.1] using a)
     · exact .inr (.inl a)
-    · exact .inr (.inr (by rw [h.2.1] at a; exact a))⟩
+    · exact .inr (.inr (by rw [h.2.1] at a; exact a)), s.pan.trans h.2.2.2.2⟩
 
 theorem SameStore.fr {i : Nat} {st st0 : State} (h : SameStore st st0) (f : Fr i st) : Fr i st0 :=
   ⟨h.inv f.1, by rw [h.2.1]; exact f.2.1, by simpa [ids, h.1] using f.2.2⟩
@@ -216,10 +228,10 @@ theorem resolveStorable_step {st st' : State} {x : Nat} {d : FD} (hi : Inv st)
   unfold resolveStorable at h
   split at h
   · rename_i n _
-    have ss : SameStore st ({ st with σ := bindS x (Term.num n) st.σ }.dremove x) := ⟨rfl, rfl, rfl, rfl⟩
+    have ss : SameStore st ({ st with σ := bindS x (Term.num n) st.σ }.dremove x) := ⟨rfl, rfl, rfl, rfl, rfl⟩
     exact ss.pre (hrc _ _ (ss.inv hi) h)
   · cases h
-    exact SameStore.step ⟨by simp [dinsert], by simp [dinsert], by simp [dinsert], by simp [dinsert]⟩ hi
+    exact SameStore.step ⟨by simp [dinsert], by simp [dinsert], by simp [dinsert], by simp [dinsert], by simp [dinsert]⟩ hi
 
 theorem updateVarDomain_step {st st' : State} {x : Nat} {d : FD} (hi : Inv st)
     (h : updateVarDomain rc st x d = .ok st') : StepI none st st' := by
@@ -305,7 +317,7 @@ theorem runPlusZ_step {i : Nat} {u v w : Term} {st st' : State} (f : Fr i st)
     · cases h
   all_goals first
     | exact leaf_with ord f h
-    | exact leaf_rc hrc f h ⟨rfl, rfl, rfl, rfl⟩
+    | exact leaf_rc hrc f h ⟨rfl, rfl, rfl, rfl, rfl⟩
     | cases h
 
 theorem runTimesZ_step {i : Nat} {u v w : Term} {st st' : State} (f : Fr i st)
@@ -315,21 +327,21 @@ theorem runTimesZ_step {i : Nat} {u v w : Term} {st st' : State} (f : Fr i st)
   · split at h
     · exact leaf_ok f h
     · cases h
-  · exact leaf_rc hrc f h ⟨rfl, rfl, rfl, rfl⟩
+  · exact leaf_rc hrc f h ⟨rfl, rfl, rfl, rfl, rfl⟩
   · split at h
     · split at h
       · exact leaf_with ord f h
       · cases h
     · split at h
       · cases h
-      · exact leaf_rc hrc f h ⟨rfl, rfl, rfl, rfl⟩
+      · exact leaf_rc hrc f h ⟨rfl, rfl, rfl, rfl, rfl⟩
   · split at h
     · split at h
       · exact leaf_with ord f h
       · cases h
     · split at h
       · cases h
-      · exact leaf_rc hrc f h ⟨rfl, rfl, rfl, rfl⟩
+      · exact leaf_rc hrc f h ⟨rfl, rfl, rfl, rfl, rfl⟩
   all_goals first
     | exact leaf_with ord f h
     | cases h
@@ -474,7 +486,7 @@ theorem fresh_run {self : Nat → Cst → State → Res State} (hs : SelfOK self
     {st st' : State} (hi : Inv st)
     (h : self st.nextId c { st with nextId := st.nextId + 1 } = .ok st') : StepI j st st' := by
   have s := hs _ _ _ _ (fresh_fr hi) h
-  refine ⟨s.inv, Nat.le_trans (Nat.le_succ _) s.mono, fun k hk => ?_⟩
+  refine ⟨s.inv, Nat.le_trans (Nat.le_succ _) s.mono, fun k hk => ?_, s.pan⟩
   rcases s.sub k hk with a | a | a
   · exact .inl a
   · simp only [Option.some.injEq] at a; exact .inr (.inr (by omega))
@@ -505,7 +517,7 @@ theorem runDistinctFd2_step {j : Option Nat} {u : Term} {y : List Term} {n : Lis
   split at h
   · cases h; exact w
   · have e := excludeFromDomain_step hrc w.inv h
-    refine ⟨e.inv, Nat.le_trans w.mono e.mono, fun k hk => ?_⟩
+    refine ⟨e.inv, Nat.le_trans w.mono e.mono, fun k hk => ?_, e.pan.trans w.pan⟩
     rcases e.sub k hk with a | a | a
     · exact w.sub k a
     · cases a
@@ -562,7 +574,8 @@ theorem runSnapshot_step {st st' : State} {snap : List (Nat × Cst)} (hi : Inv s
         have fr : Fr p.1 st1 := ⟨ti, by rw [tn]; exact hlt, hni⟩
         have s := runCst_selfOK hrc ord 4 _ _ _ _ fr hy
         have hmem : p.1 ∈ ids cur := List.mem_map_of_mem (f := fun q : Nat × Cst => q.1) (a := (p.1, c)) (take_some e2)
-        refine ⟨s.inv, Nat.le_trans hp.mono (by rw [← tn]; exact s.mono), fun k hk => ?_⟩
+        refine ⟨s.inv, Nat.le_trans hp.mono (by rw [← tn]; exact s.mono), fun k hk => ?_,
+          s.pan.trans ((by rw [← e1]; exact take_panic cur p.1 : st1.panic = cur.panic).trans hp.pan)⟩
         rcases s.sub k hk with a | a | a
         · rcases hp.sub k (ts k a) with b | b | b
           · exact .inl b
@@ -579,7 +592,8 @@ theorem runSnapshot_step {st st' : State} {snap : List (Nat × Cst)} (hi : Inv s
         cases hy
         have e1 : (cur.takeConstraint p.1).1 = cur' := by rw [e]
         rw [e1] at ti tn ts
-        refine ⟨ti, by rw [tn]; exact hp.mono, fun k hk => ?_⟩
+        refine ⟨ti, by rw [tn]; exact hp.mono, fun k hk => ?_,
+          (by rw [← e1]; exact take_panic cur p.1 : cur'.panic = cur.panic).trans hp.pan⟩
         rcases hp.sub k (ts k hk) with b | b | b
         · exact .inl b
         · cases b
@@ -623,7 +637,7 @@ theorem processExtensionFd_step (ord : Order) {st st' : State} {e : Ext1} (hi : 
       · obtain ⟨s1, e1, hy⟩ := Res.bind_ok hy
         have p1 := processDomain_step (runConstraintsF_ok ord rcFuel) hp.inv e1
         split at hy
-        · have ss : SameStore s1 (s1.dremove p.1) := ⟨rfl, rfl, rfl, rfl⟩
+        · have ss : SameStore s1 (s1.dremove p.1) := ⟨rfl, rfl, rfl, rfl, rfl⟩
           exact (hp.trans p1).trans (ss.pre (runConstraintsF_ok ord _ _ _ (ss.inv p1.inv) hy))
         · cases hy
       · cases hy; exact hp) (ord.ps e) (.ok st) st' h
@@ -638,7 +652,7 @@ theorem processExtension_step (ord : Order) {st st' : State} {e : Ext1} (hi : In
   cases h
   have p1 := runConstraintsF_ok ord _ _ _ hi e1
   have p2 := processExtensionFd_step ord p1.inv e2
-  exact (p1.trans p2).trans (SameStore.step ⟨rfl, rfl, rfl, rfl⟩ p2.inv)
+  exact (p1.trans p2).trans (SameStore.step ⟨rfl, rfl, rfl, rfl, rfl⟩ p2.inv)
 
 theorem unify_step (ord : Order) {st st' : State} {u v : Term} (hi : Inv st)
     (h : unify ord st u v = .ok st') : StepI none st st' := by
@@ -647,7 +661,7 @@ theorem unify_step (ord : Order) {st st' : State} {u v : Term} (hi : Inv st)
   · cases h
   · cases h
   · rename_i σ' e _
-    have ss : SameStore st { st with σ := σ' } := ⟨rfl, rfl, rfl, rfl⟩
+    have ss : SameStore st { st with σ := σ' } := ⟨rfl, rfl, rfl, rfl, rfl⟩
     exact ss.pre (processExtension_step ord (ss.inv hi) h)
 
 theorem disunify_step (ord : Order) {st st' : State} {u v : Term} (hi : Inv st)
